@@ -39,7 +39,7 @@ func init() {
 }
 
 // Classes of scenarios.
-var classes = []string{"baseline", "faults", "partition", "vote-equiv", "prop-equiv", "lock-attack", "crash", "faults+vote-equiv", "stale-polka"}
+var classes = []string{"baseline", "faults", "partition", "vote-equiv", "prop-equiv", "lock-attack", "crash", "faults+vote-equiv", "stale-polka", "lock-attack-crash"}
 
 // MakePlan builds the plan of case i.
 func MakePlan(i int, r *rand.Rand, thorough bool) (csnet.Options, string) {
@@ -85,10 +85,10 @@ func MakePlan(i int, r *rand.Rand, thorough bool) (csnet.Options, string) {
 		byz()
 		plan.Strategy = "prop-equiv"
 		faults(0)
-	case "lock-attack":
+	case "lock-attack", "lock-attack-crash":
 		n = 4
 		opt.N = 4
-		plan.Strategy = "lock-attack"
+		plan.Strategy = class
 		plan.AttackHeight = int64(2 + r.Intn(2))
 		opt.Byz = []int{csnet.LockAttackByz(plan.AttackHeight)}
 		opt.TimeoutPropose = 3 * time.Second
